@@ -1,8 +1,11 @@
 package c03
 
 import (
+	"os"
 	"testing"
 	"time"
+
+	"verif.local/ev"
 
 	"verif/checks/c03/bscen"
 	"verif/lib/nrun"
@@ -11,8 +14,13 @@ import (
 func TestC03(t *testing.T) {
 	nrun.Main(t, &nrun.Check{
 		ID: "C03", TestName: "TestC03", Plans: bscen.Plans(),
-		QuickTime: 75 * time.Second, ThorTime: 18 * time.Minute,
-		Rule: "engine N: every order of application calls (two producers using Produce/TryProduce incl. a cancelable blocked Produce, a Flush caller, a canceller), produce request/response deliveries, timer ticks and faults (kill before/after, NOT_LEADER, stall) within k deviations of the default order, for MaxBufferedRecords 1 and 2, MaxBufferedBytes, linger and ManualFlushing configurations; admission rules are checked at every produce call, Flush rules at every Flush return; distinct = distinct per-record outcome vectors",
-		Assume: []string{"kfake is the broker", "synctests build of xsync", "message-level granularity: the instruction-level interleavings of the admission path are covered only as far as C30's ring harness reaches"},
+		QuickTime: 60 * time.Second, ThorTime: 12 * time.Minute,
+		Rule: "two parts. Engine S: every interleaving within the deviation bound (each departure from the default thread schedule costs 1) of two producers (blocking Produce, TryProduce, a cancelable blocked Produce), a completer that promises in-flight records as a sink would, Flush callers and a canceller over Client.produce / promiseBatch / finishPromises / finishRecordPromise / Flush and the promise ring extracted from the current tree, at the granularity of every mutex, cond, atomic and channel operation. Engine N: every order of application calls, produce request/response deliveries, timer ticks and faults (kill before/after, NOT_LEADER, stall) within k deviations of the default order on the real client and kfake, for MaxBufferedRecords 1 and 2, MaxBufferedBytes, linger and ManualFlushing; admission rules judged per produce call, Flush rules per Flush return. distinct = distinct per-record outcome vectors",
+		Assume: []string{"kfake is the broker (N part)", "synctests build of xsync (N part)", "S part: vrt primitives are faithful; stubs stand for config, logger, pools and the partitioning path (loadPartsAndPartition = put on an in-flight queue)"},
+		Extra: func(r *ev.Run) {
+			if p := os.Getenv("C03S_OUT"); p != "" {
+				nrun.MergeSummary(r, p, "engine_s")
+			}
+		},
 	})
 }
